@@ -93,9 +93,12 @@ TEnd ==
   /\ pend[Ev.p].stage = "left"
   /\ IF pend[Ev.p].op = "List"
      THEN LET listed == {Ev.ids[i] : i \in 1..Len(Ev.ids)} IN
-          /\ Ev.st = "ok"
-          /\ listed \subseteq pend[Ev.p].may                      \* (an id outside TraceIds is in nobody's may)
-          /\ (TraceIds \ listed) \subseteq pend[Ev.p].mayNot
+          \* (a List that fails - the directory walk meets a file that a concurrent Delete has just removed - says nothing:
+          \* the property does not quantify over List racing writers; a List that answers is held to what it answers)
+          \/ Ev.st = "error"
+          \/ /\ Ev.st = "ok"
+             /\ listed \subseteq pend[Ev.p].may                      \* (an id outside TraceIds is in nobody's may)
+             /\ (TraceIds \ listed) \subseteq pend[Ev.p].mayNot
      ELSE pend[Ev.p].st = Ev.st /\ pend[Ev.p].val = Ev.val
   /\ pend' = [pend EXCEPT ![Ev.p] = Idle]
   /\ UNCHANGED <<kv, last, inside>> /\ Frame
